@@ -195,3 +195,63 @@ func verifHarness_C13_stall(kind int) {
 	}
 	verifReach("C13/S")
 }
+
+// K4 (router without a dialect): a node configured with no dialect forwards frames whose message is already raw
+// (what it received) through all three WriteFrame entry points: accepted, handed over exactly once, unchanged; a
+// decoded message cannot be written without a dialect and is refused with nothing handed over.
+// api 0..2: WriteFrameAll / To / Except with a raw v2 frame; 3..5: the same with a raw v1 frame; 6: WriteMessageAll
+// of a decoded message.
+func verifHarness_C11_router_nodialect(api int) {
+	n := &Node{OutVersion: V2, OutSystemID: 1, Endpoints: []EndpointConf{verifEndpointConf{&verifEndpoint{one: true}}}}
+	verifAssert(n.Initialize() == nil, "C11/K4r/init")
+	target := verifBareChannel(n)
+	verifChanSink(n.chWriteAll)
+	verifChanSink(n.chWriteTo)
+	verifChanSink(n.chWriteExcept)
+	id := verifNondetU32()
+	verifAssume(id < 1<<24)
+	payload := verifNondetBytes(3)
+	raw := &message.MessageRaw{ID: id, Payload: payload}
+	if api == 6 {
+		msg, _, _ := frame.VerifMsg(2, 2)
+		verifAssert(n.WriteMessageAll(msg) != nil, "C11/K4r/decoded-message-refused-without-a-dialect")
+		verifAssert(len(n.chWriteAll)+len(n.chWriteTo)+len(n.chWriteExcept) == 0, "C11/K4r/nothing-handed-over")
+		verifReach("C11/K4r")
+		return
+	}
+	var fr frame.Frame = &frame.V2Frame{SequenceNumber: 9, SystemID: 8, ComponentID: 7, Checksum: verifNondetU16(), Message: raw}
+	if api >= 3 {
+		verifAssume(id <= 0xFF)
+		fr = &frame.V1Frame{SequenceNumber: 9, SystemID: 8, ComponentID: 7, Checksum: verifNondetU16(), Message: raw}
+	}
+	var err error
+	var what interface{}
+	switch api % 3 {
+	case 0:
+		err = n.WriteFrameAll(fr)
+		verifAssert(err == nil && len(n.chWriteAll) == 1, "C11/K4r/raw-frame-accepted-and-handed-over")
+		if len(n.chWriteAll) == 1 {
+			what = <-n.chWriteAll
+		}
+	case 1:
+		err = n.WriteFrameTo(target, fr)
+		verifAssert(err == nil && len(n.chWriteTo) == 1, "C11/K4r/raw-frame-accepted-and-handed-over")
+		if len(n.chWriteTo) == 1 {
+			req := <-n.chWriteTo
+			verifAssert(req.ch == target, "C11/K4r/target-kept")
+			what = req.what
+		}
+	default:
+		err = n.WriteFrameExcept(target, fr)
+		verifAssert(err == nil && len(n.chWriteExcept) == 1, "C11/K4r/raw-frame-accepted-and-handed-over")
+		if len(n.chWriteExcept) == 1 {
+			req := <-n.chWriteExcept
+			verifAssert(req.except == target, "C11/K4r/target-kept")
+			what = req.what
+		}
+	}
+	verifAssert(len(n.chWriteAll)+len(n.chWriteTo)+len(n.chWriteExcept) == 0, "C11/K4r/exactly-one-hand-over")
+	verifAssert(what == interface{}(fr), "C11/K4r/the-frame-itself-is-forwarded")
+	verifAssert(fr.GetMessage() == message.Message(raw) && verifEqBytes(raw.Payload, payload), "C11/K4r/raw-message-untouched")
+	verifReach("C11/K4r")
+}
